@@ -838,20 +838,24 @@ theorem extract_contained (cwd directory target : Chars)
     Inside (abspath cwd directory) (abspath cwd target) :=
   within_sound cwd directory target h
 
-/-- `safe_extract` either refuses the archive or every member is written inside the folder — for all member names. -/
+/-- **safe_extract on an archive of regular files** (the repaired code: name check, then `extractall(filter='data')`):
+    either the archive is refused, or one location per member is written, each of them the folder joined with
+    the member name (leading slashes stripped by the filter) and lying inside the folder — for all member names.
+    Members that are links or directories are not in this model: for them the claim rests on the contract of
+    tarfile's `'data'` filter, which the harness monitors by looking at everything created on disk. -/
 theorem safe_extract_contained (cwd path : Chars) (members : List Chars) (ps : List APath)
     (h : safeExtract cwd path members = .ok ps) :
-    ps = members.map (fun m => abspath cwd (joinPath path m)) ∧
-    ∀ p ∈ ps, Inside (abspath cwd path) p := by
-  unfold safeExtract safeExtractWith at h
+    ps.length = members.length ∧
+    ∀ p ∈ ps, Inside (abspath cwd path) p ∧
+      ∃ m ∈ members, p = abspath cwd (joinPath path (m.dropWhile (· = '/'))) := by
+  unfold safeExtract at h
   split at h
-  · rename_i hall
-    cases h
-    refine ⟨rfl, ?_⟩
+  · obtain ⟨hl, hm⟩ := extractAll_ok cwd path members ps h
+    refine ⟨hl, ?_⟩
     intro p hp
-    obtain ⟨m, hm, rfl⟩ := List.mem_map.mp hp
-    rw [List.all_eq_true] at hall
-    exact within_sound cwd path _ (hall m hm)
+    obtain ⟨m, hmem, hf⟩ := hm p hp
+    obtain ⟨h1, h2⟩ := dataFilter_inside cwd path m p hf
+    exact ⟨h2, m, hmem, h1⟩
   · cases h
 
 /-- no false refusal: a target inside a folder whose absolute path starts with a single slash is accepted -/
@@ -872,7 +876,7 @@ theorem safe_extract_accepts_plain (cwd path : Chars) (members : List Chars)
   have hloc : ∀ m ∈ members, abspath cwd (joinPath path m) = ⟨1, (abspath cwd path).comps ++ splitSlash m⟩ := by
     intro m hmem
     rw [abspath_join_plain cwd path m habs hend (hm m hmem).1 (hm m hmem).2, hone]
-  unfold safeExtract safeExtractWith
+  unfold safeExtract
   have hall : members.all (fun m => isWithinDirectory cwd path (joinPath path m)) = true := by
     rw [List.all_eq_true]
     intro m hmem
@@ -882,9 +886,22 @@ theorem safe_extract_accepts_plain (cwd path : Chars) (members : List Chars)
     exact List.prefix_append _ _
   rw [hall]
   simp only [if_true]
-  show Except.ok _ = Except.ok _
-  congr 1
-  exact List.map_congr_left hloc
+  apply extractAll_of_all
+  intro m hmem
+  unfold dataFilter
+  simp only
+  rw [dropWhile_slash_of_rel m (hm m hmem).1, hloc m hmem]
+  have hc : commonpath (abspath cwd path) ⟨1, (abspath cwd path).comps ++ splitSlash m⟩ = abspath cwd path := by
+    unfold commonpath
+    simp only
+    rw [commonPrefix_of_prefix _ _ (List.prefix_append _ _)]
+    cases hd : abspath cwd path with
+    | mk sl c =>
+      rw [hd] at hone
+      simp only at hone
+      simp [hone]
+  rw [hc]
+  simp
 
 example : isAbs "/data/netset".toList = true ∧ (abspath "/".toList "/data/netset".toList).slashes = 1 ∧
     isAbs "wikivitals/adjacency.npz".toList = false ∧
